@@ -28,7 +28,11 @@ ANCHORS = [
     ("buidl/script.py", "RedeemScript.convert"), ("buidl/script.py", "WitnessScript.convert"), ("buidl/script.py", "P2PKHScriptPubKey.__init__"),
     ("buidl/phash.py", "tagged_hash"), ("buidl/phash.py", "hash_tapsighash"), ("buidl/phash.py", "hash_tapleaf"),
 ]
-RULE = ("transactions with 1..6 inputs and 0..6 outputs are generated as plain data from one PRNG seeded by VERIF_SEED, every input "
+RULE = ("objects are reused: every single query is asked twice of the same object; histories interleave queries for different "
+        "inputs / hash types / algorithms on ONE Tx object, repeat queries, mutate IN PLACE what the inputs hold (tap script, control "
+        "block, annex, stack items, witness script, redeem script, hash inside the spent scriptPubKey, pushes inside output "
+        "scripts) next to edits of the transaction fields, and ask the same question again after every edit.  "
+        "Transactions with 1..6 inputs and 0..6 outputs are generated as plain data from one PRNG seeded by VERIF_SEED, every input "
         "spending one of P2PK, P2PKH, P2SH-multisig, P2SH-P2WPKH, P2SH-P2WSH, P2WPKH, P2WSH, P2TR key path, P2TR script path "
         "(annex present/absent) with amounts in [0, 2^63); the library objects are built from them through the API with "
         "_value/_script_pubkey preset; every input index (and one past the end) × the seven standard hash types "
@@ -46,7 +50,8 @@ CLAUSES = {
         "proved (annex_eq_spec, extflag_eq_spec, route_p2pkh, route_p2sh_legacy, route_p2wpkh, route_p2wsh, "
         "route_p2sh_p2wpkh, route_p2sh_p2wsh, route_p2tr, spec_dispatch_native)",
     "history independence: every query answers for the current fields, after any operations":
-        "proved (history_independent, query_pure) for the repaired code; the memoising variant fails: F05d_witness",
+        "proved (history_independent, query_pure, requery_after_witness_edit: annex, ext_flag and the tap leaf hash are functions "
+        "of the current witness items) for the repaired code; the memoising variant fails: F05d_witness",
     "the source is the repaired variant (no memoisation, has_annex needs two elements)":
         "re-extracted on every run (Gen.sighashMemo, Gen.annexMinItems) and compared with Cfg.repaired by the harness",
     "non-standard hash types, malformed arguments, script codes with OP_CODESEPARATOR or non-minimal pushes": "correspondence-only",
@@ -98,27 +103,26 @@ def spend(rng, kind):
     d = {"script_sig": T.d_script([]), "witness": []}
     if kind == "p2pk":
         spk = [pk, 0xAC]
-        d.update(spk=T.d_script(spk), script_sig=T.d_script([sig]), rule=("legacy", T.raw_script(T.d_script(spk))))
+        d.update(spk=T.d_script(spk), script_sig=T.d_script([sig]))
     elif kind == "p2pkh":
         spk = [0x76, 0xA9, rbytes(rng, 20), 0x88, 0xAC]
-        d.update(spk=T.d_script(spk), script_sig=T.d_script([sig, pk]), rule=("legacy", T.raw_script(T.d_script(spk))))
+        d.update(spk=T.d_script(spk), script_sig=T.d_script([sig, pk]))
     elif kind == "p2sh_ms":
         redeem = T.raw_script(T.d_script([0x51, pk, bytes([2]) + rbytes(rng, 32), 0x52, 0xAE]))
-        d.update(spk=T.d_script([0xA9, rbytes(rng, 20), 0x87]), script_sig=T.d_script([0, sig, redeem]), rule=("legacy", redeem))
+        d.update(spk=T.d_script([0xA9, rbytes(rng, 20), 0x87]), script_sig=T.d_script([0, sig, redeem]))
     elif kind == "p2sh_p2wpkh":
         h = rbytes(rng, 20)
-        d.update(spk=T.d_script([0xA9, rbytes(rng, 20), 0x87]), script_sig=T.d_script([b"\x00\x14" + h]), witness=[sig, pk],
-                 rule=("bip143", p2pkh_code(h)))
+        d.update(spk=T.d_script([0xA9, rbytes(rng, 20), 0x87]), script_sig=T.d_script([b"\x00\x14" + h]), witness=[sig, pk])
     elif kind in ("p2sh_p2wsh", "p2wsh"):
         ws = T.raw_script(T.d_script(rng.choice([[0x51, pk, 0x51, 0xAE], [pk, 0xAC], [rbytes(rng, rng.choice([76, 100, 255, 256, 300])), 0x75, pk, 0xAC]])))
         if kind == "p2wsh":
-            d.update(spk=T.d_script([0, rbytes(rng, 32)]), witness=[b"", sig, ws], rule=("bip143", ws))
+            d.update(spk=T.d_script([0, rbytes(rng, 32)]), witness=[b"", sig, ws])
         else:
             d.update(spk=T.d_script([0xA9, rbytes(rng, 20), 0x87]), script_sig=T.d_script([b"\x00\x20" + rbytes(rng, 32)]),
-                     witness=[b"", sig, ws], rule=("bip143", ws))
+                     witness=[b"", sig, ws])
     elif kind == "p2wpkh":
         h = rbytes(rng, 20)
-        d.update(spk=T.d_script([0, h]), witness=[sig, pk], rule=("bip143", p2pkh_code(h)))
+        d.update(spk=T.d_script([0, h]), witness=[sig, pk])
     elif kind in ("p2tr_key", "p2tr_key_annex"):
         s64 = rbytes(rng, 64)
         if s64[0] == 0x50:
@@ -128,7 +132,7 @@ def spend(rng, kind):
         if kind.endswith("annex"):
             annex = b"\x50" + rbytes(rng, rng.choice([0, 1, 10, 300]))
             wit.append(annex)
-        d.update(spk=T.d_script([0x51, rbytes(rng, 32)]), witness=wit, rule=("bip341", annex, None))
+        d.update(spk=T.d_script([0x51, rbytes(rng, 32)]), witness=wit)
     elif kind in ("p2tr_script", "p2tr_script_annex"):
         leaf_script = T.raw_script(T.d_script(rng.choice([[rbytes(rng, 32), 0xAC], [rbytes(rng, 32), 0xAD, rbytes(rng, 32), 0xAC],
                                                           [0x51], [rbytes(rng, 80), 0x75, 0x51]])))
@@ -139,12 +143,61 @@ def spend(rng, kind):
         if kind.endswith("annex"):
             annex = b"\x50" + rbytes(rng, rng.choice([0, 5, 100]))
             wit.append(annex)
-        d.update(spk=T.d_script([0x51, rbytes(rng, 32)]), witness=wit, rule=("bip341", annex, (ver, leaf_script)))
+        d.update(spk=T.d_script([0x51, rbytes(rng, 32)]), witness=wit)
     else:
         raise MachineryError(kind)
     d["kind"] = kind
     d["value"] = rng.choice([0, 1, 546, 2 ** 63 - 1, rng.getrandbits(62), rng.getrandbits(30)])
     return d
+
+
+def canonical(raw):
+    """raw script bytes that the library's parser reads completely and re-serialises to the same bytes"""
+    try:
+        d = script_of_raw(raw)
+    except Exception:
+        return False
+    if any(isinstance(c, bytes) and len(c) > 520 for c in d["cmds"]):
+        return False
+    return T.raw_script(d) == raw
+
+
+def rule_of(inp):
+    """the rule the consensus specification applies to this input, derived from its CURRENT description (so that it
+    follows in-place edits of the witness / scriptSig / spent output); None when the property does not determine a
+    digest (malformed spend, non-canonical script code, invalid control block)"""
+    if inp.get("norule") or inp.get("spk") is None or inp.get("value") is None:
+        return None
+    kind, ss, w = inp["kind"], inp["script_sig"]["cmds"], inp["witness"]
+    try:
+        if kind in ("p2pk", "p2pkh"):
+            return ("legacy", T.raw_script(inp["spk"]))
+        if kind == "p2sh_ms":
+            red = ss[-1]
+            return ("legacy", red) if isinstance(red, bytes) and canonical(red) and red[:2] not in (b"\x00\x14", b"\x00\x20") else None
+        if kind == "p2sh_p2wpkh":
+            red = ss[-1]
+            return ("bip143", p2pkh_code(red[2:])) if isinstance(red, bytes) and len(red) == 22 and red[:2] == b"\x00\x14" else None
+        if kind in ("p2wsh", "p2sh_p2wsh"):
+            if kind == "p2sh_p2wsh" and not (isinstance(ss[-1], bytes) and len(ss[-1]) == 34 and ss[-1][:2] == b"\x00\x20"):
+                return None
+            return ("bip143", w[-1]) if w and canonical(w[-1]) else None
+        if kind == "p2wpkh":
+            h = inp["spk"]["cmds"][1]
+            return ("bip143", p2pkh_code(h)) if isinstance(h, bytes) and len(h) == 20 else None
+        # taproot: BIP341's annex and key/script path from the current witness stack
+        if not w or (len(w) >= 2 and w[-1] == b""):
+            return None
+        annex = w[-1] if len(w) >= 2 and w[-1][:1] == b"\x50" else None
+        rest = w[:-1] if annex is not None else w
+        if len(rest) == 1:
+            return ("bip341", annex, None)
+        cb = rest[-1]
+        if len(cb) % 32 != 1 or not (33 <= len(cb) <= 33 + 128 * 32) or cb[1:33] not in xonly_keys():
+            return None
+        return ("bip341", annex, (cb[0] & 0xFE, rest[-2]))
+    except Exception:
+        return None
 
 
 def gen_input(rng, kind=None):
@@ -177,24 +230,26 @@ def q_auto(i, ht):
 
 def q_direct(tx, i, ht):
     """the query through the algorithm method that the input's kind calls for, with the arguments Tx.sig_hash
-    would derive (None when the index is out of range)"""
+    would derive from the CURRENT fields (None when the index is out of range or the spend is malformed)"""
     if i >= len(tx["ins"]):
         return None
     inp = tx["ins"][i]
-    kind = inp["kind"]
+    kind, rule = inp["kind"], rule_of(inp)
+    if rule is None:
+        return None
     if kind in ("p2pk", "p2pkh"):
         return f"L {i} - {ht}"
     if kind == "p2sh_ms":
-        return f"L {i} S {T.t_script(script_of_raw(inp['rule'][1]))} {ht}"
+        return f"L {i} S {T.t_script(script_of_raw(rule[1]))} {ht}"
     if kind == "p2wpkh":
         return f"W {i} - - {ht}"
     if kind == "p2sh_p2wpkh":
-        return f"W {i} S {T.t_script(script_of_raw(inp['script_sig']['cmds'][0]))} - {ht}"
+        return f"W {i} S {T.t_script(script_of_raw(inp['script_sig']['cmds'][-1]))} - {ht}"
     if kind == "p2wsh":
-        return f"W {i} - S {T.t_script(script_of_raw(inp['rule'][1]))} {ht}"
+        return f"W {i} - S {T.t_script(script_of_raw(rule[1]))} {ht}"
     if kind == "p2sh_p2wsh":
-        return f"W {i} S {T.t_script(script_of_raw(inp['script_sig']['cmds'][0]))} S {T.t_script(script_of_raw(inp['rule'][1]))} {ht}"
-    return f"T {i} {1 if inp['rule'][2] else 0} {ht}"
+        return f"W {i} S {T.t_script(script_of_raw(inp['script_sig']['cmds'][-1]))} S {T.t_script(script_of_raw(rule[1]))} {ht}"
+    return f"T {i} {1 if rule[2] else 0} {ht}"
 
 
 def script_of_raw(raw):
@@ -233,7 +288,9 @@ def spec_line(tx, query):
             return f"spec_legacy {stx} {i} x {ht}"
         return None
     inp = tx["ins"][i]
-    rule = inp["rule"]
+    rule = rule_of(inp)
+    if rule is None or any(rule_of(x) is None for x in tx["ins"]):
+        return None
     if alg == "A" or query == q_direct(tx, i, ht):
         if rule[0] == "legacy":
             return f"spec_legacy {stx} {i} {xb(rule[1])} {ht}"
@@ -356,11 +413,28 @@ def apply_edit(obj, e):
         obj.tx_ins.append(inp)
     elif k == "in_pop":
         obj.tx_ins.pop()
+    # in-place mutations of the objects an input already holds (the same Witness / Script objects stay in place)
+    elif k == "wit_set":
+        obj.tx_ins[e["i"]].witness.items[e["k"]] = e["v"]
+    elif k == "wit_insert":
+        obj.tx_ins[e["i"]].witness.items.insert(e["k"], e["v"])
+    elif k == "wit_append":
+        obj.tx_ins[e["i"]].witness.items.append(e["v"])
+    elif k == "wit_pop":
+        obj.tx_ins[e["i"]].witness.items.pop()
+    elif k == "sig_set":
+        obj.tx_ins[e["i"]].script_sig.commands[e["k"]] = e["v"]
+    elif k == "spk_set":
+        obj.tx_ins[e["i"]]._script_pubkey.commands[e["k"]] = e["v"]
+    elif k == "out_spk_set":
+        obj.tx_outs[e["j"]].script_pubkey.commands[e["k"]] = e["v"]
     else:
         raise MachineryError("edit " + k)
 
 
 def edit_desc(tx, e):
+    import copy
+    e = copy.deepcopy(e)      # the description must not share lists with the recorded edit (later in-place edits mutate it)
     k = e["op"]
     if k == "out_amount":
         tx["outs"][e["j"]]["amount"] = e["v"]
@@ -386,6 +460,73 @@ def edit_desc(tx, e):
         tx["ins"].append(e["inp"])
     elif k == "in_pop":
         tx["ins"].pop()
+    elif k == "wit_set":
+        tx["ins"][e["i"]]["witness"][e["k"]] = e["v"]
+    elif k == "wit_insert":
+        tx["ins"][e["i"]]["witness"].insert(e["k"], e["v"])
+    elif k == "wit_append":
+        tx["ins"][e["i"]]["witness"].append(e["v"])
+    elif k == "wit_pop":
+        tx["ins"][e["i"]]["witness"].pop()
+    elif k == "sig_set":
+        tx["ins"][e["i"]]["script_sig"]["cmds"][e["k"]] = e["v"]
+    elif k == "spk_set":
+        tx["ins"][e["i"]]["spk"]["cmds"][e["k"]] = e["v"]
+    elif k == "out_spk_set":
+        tx["outs"][e["j"]]["spk"]["cmds"][e["k"]] = e["v"]
+
+
+def gen_inplace(rng, tx, i):
+    """an in-place mutation of what input `i` (or an output) already holds, chosen so that the digest of that input
+    must change: tap script / control block / annex / stack item of a taproot input, the witness script or redeem
+    script of a segwit / p2sh input, the hash inside the spent scriptPubKey, a push inside an output script"""
+    inp = tx["ins"][i]
+    kind, w, ss = inp["kind"], inp["witness"], inp["script_sig"]["cmds"]
+    pk = bytes([rng.choice([2, 3])]) + rbytes(rng, 32)
+    opts = []
+    if kind.startswith("p2tr") and w:
+        has_annex = len(w) >= 2 and w[-1][:1] == b"\x50"
+        base = len(w) - (1 if has_annex else 0)
+        if base >= 2:
+            cb = w[base - 1]
+            new_script = T.raw_script(T.d_script(rng.choice([[rbytes(rng, 32), 0xAC], [0x51], [0x52, 0x87], [rbytes(rng, 33), 0x75, 0x51]])))
+            opts += [("wit_set", base - 2, new_script), ("wit_set", base - 2, new_script),
+                     ("wit_set", base - 1, bytes([cb[0] ^ 0x02]) + cb[1:]) if cb else None,
+                     ("wit_set", base - 1, cb[:1] + rng.choice(xonly_keys()) + cb[33:] + rbytes(rng, 32)) if len(cb) >= 33 else None,
+                     ("wit_insert", 0, rbytes(rng, rng.choice([0, 1, 64])))]
+        elif base == 1:
+            sig = rbytes(rng, 64)
+            opts += [("wit_set", 0, (b"\x51" + sig[1:]) if sig[0] == 0x50 else sig)]
+        opts += [("wit_pop",)] if has_annex else [("wit_append", b"\x50" + rbytes(rng, rng.choice([0, 3, 40])))]
+    if kind in ("p2wsh", "p2sh_p2wsh") and w:
+        opts += [("wit_set", len(w) - 1, T.raw_script(T.d_script(rng.choice([[0x51, pk, 0x51, 0xAE], [pk, 0xAC], [pk, 0xAD, 0x51]])))),
+                 ("wit_insert", 0, rbytes(rng, 71))]
+    if kind == "p2sh_ms" and ss:
+        opts += [("sig_set", len(ss) - 1, T.raw_script(T.d_script([0x51, pk, 0x51, 0xAE])))]
+    if kind == "p2sh_p2wpkh" and ss:
+        opts += [("sig_set", len(ss) - 1, b"\x00\x14" + rbytes(rng, 20))]
+    if kind == "p2wpkh":
+        opts += [("spk_set", 1, rbytes(rng, 20))]
+    if kind == "p2pkh":
+        opts += [("spk_set", 2, rbytes(rng, 20))]
+    if kind == "p2pk":
+        opts += [("spk_set", 0, pk)]
+    outs = [(j, k) for j, o in enumerate(tx["outs"]) for k, c in enumerate(o["spk"]["cmds"]) if isinstance(c, bytes)]
+    if outs:
+        j, k = rng.choice(outs)
+        opts.append(("out_spk_set", j, k, rbytes(rng, len(tx["outs"][j]["spk"]["cmds"][k]))))
+    opts = [o for o in opts if o]
+    if not opts:
+        return None
+    o = rng.choice(opts)
+    if o[0] == "out_spk_set":
+        return {"op": o[0], "j": o[1], "k": o[2], "v": o[3]}
+    e = {"op": o[0], "i": i}
+    if len(o) == 3:
+        e["k"], e["v"] = o[1], o[2]
+    elif len(o) == 2:
+        e["v"] = o[1]
+    return e
 
 
 def gen_edit(rng, tx):
@@ -443,7 +584,11 @@ def _impl(t):
     if t[0] == "q":
         ts = T.Toks(t, 1)
         obj = T.p_tx(ts)
-        return _safe_query(obj, ts)
+        start = ts.p
+        first = _safe_query(obj, ts)
+        ts.p = start
+        second = _safe_query(obj, ts)          # the same question to the same object
+        return first if first == second else f"UNSTABLE {first} then {second}"
     raise UnknownOp(t[0])
 
 
@@ -577,42 +722,62 @@ def run(ctx):
             inp["value"] = None
         elif m == 6 and inp["witness"]:
             inp["witness"] = inp["witness"][:-1] + [bytes([inp["witness"][-1][0] if inp["witness"][-1] else 0]) + b"\x00" * 32]
-        inp["rule"] = None
+        inp["norule"] = True
         for ht in rng.sample(STD, 2):
             singles.append(("malformed", tx, q_auto(i, ht)))
 
-    # histories on one object
+    # histories on one object: queries (each possibly repeated), interleaved over inputs / hash types / algorithms,
+    # in-place edits of what the inputs hold, and the same question asked again after every edit
+    import copy
     maxlen = 10 if ctx.thorough else 6
-    for _ in range(ctx.n(700)):
-        tx0 = gen_tx(rng, rng.randrange(1, 5), rng.randrange(0, 4))
-        import copy
+    for hn in range(ctx.n(1500)):
+        kinds = None
+        if hn % 3 == 0:
+            kinds = [rng.choice(["p2tr_script", "p2tr_script_annex", "p2tr_key", "p2tr_key_annex"]), rng.choice(KINDS)]
+        elif hn % 3 == 1:
+            kinds = [rng.choice(["p2wsh", "p2sh_p2wsh", "p2sh_ms", "p2sh_p2wpkh", "p2wpkh", "p2pkh"]), rng.choice(KINDS)]
+        tx0 = gen_tx(rng, rng.randrange(1, 5), rng.randrange(0, 4), kinds)
         cur = copy.deepcopy(tx0)
-        ops = []
-        for _ in range(rng.randrange(2, maxlen + 1)):
-            if rng.random() < 0.55:
-                i = rng.randrange(len(cur["ins"]))
-                ht = rng.choice(STD)
-                q = q_auto(i, ht) if rng.random() < 0.6 else (q_direct(cur, i, ht) or q_auto(i, ht))
-                ops.append(("Q", q))
+        focus = 0
+        ops, last = [], None          # last = (input, hash type, "A" | "D")
+        L = rng.randrange(3, maxlen + 1)
+
+        def ask(i, ht, how):
+            q = q_auto(i, ht) if how == "A" else (q_direct(cur, i, ht) or q_auto(i, ht))
+            ops.append(("Q", q))
+
+        while len(ops) < L:
+            r = rng.random()
+            focus = min(focus, len(cur["ins"]) - 1)
+            if last is not None and last[0] < len(cur["ins"]) and r < 0.18:
+                ask(*last)                                           # the same question again
+            elif last is None or r < 0.55:
+                i = focus if rng.random() < 0.65 else rng.randrange(len(cur["ins"]))
+                last = (i, rng.choice(STD), rng.choice("AAD"))
+                ask(*last)
             else:
-                e = gen_edit(rng, cur)
+                e = gen_inplace(rng, cur, focus) if rng.random() < 0.7 else None
+                e = e or gen_edit(rng, cur)
                 edit_desc(cur, e)
                 ops.append(("E", e))
+                if last is not None and last[0] < len(cur["ins"]) and len(ops) < L:
+                    ask(*last)                                       # and again after the edit
         if ops[-1][0] != "Q":
-            ops.append(("Q", q_auto(rng.randrange(len(cur["ins"])), rng.choice(STD))))
+            i = min(focus, len(cur["ins"]) - 1)
+            ops.append(("Q", q_auto(i, last[1] if last else rng.choice(STD))))
         hists.append((tx0, ops))
 
     # ---- the specification's dispatcher against the rule each generated input was built for
     disp = []
     for _, tx, _ in singles[:: max(1, len(singles) // ctx.n(400))]:
         for inp in tx["ins"]:
-            if inp.get("rule") and inp.get("spk"):
+            if rule_of(inp) and inp.get("spk"):
                 redeem = "-"
                 if inp["kind"].startswith("p2sh"):
                     redeem = xb(inp["script_sig"]["cmds"][-1])
                 disp.append((inp, f"spec_dispatch {xb(T.raw_script(inp['spk']))} {redeem} {T.t_witness(inp['witness'])}"))
     for (inp, line), got in zip(disp, drv.batch([l for _, l in disp])):
-        rule = inp["rule"]
+        rule = rule_of(inp)
         if rule[0] == "bip341":
             want = f"bip341 {1 if rule[2] else 0} {'-' if rule[1] is None else xb(rule[1])}"
         else:
@@ -625,7 +790,7 @@ def run(ctx):
 
     # ---- model and specification answers
     single_lines = [f"q {T.t_tx(tx)} {q}" for _, tx, q in singles]
-    single_specs = [spec_line(tx, q) if kind in ("auto", "direct", "legacy_any") and all(i.get("rule") for i in tx["ins"]) else None
+    single_specs = [spec_line(tx, q) if kind in ("auto", "direct", "legacy_any") else None
                     for kind, tx, q in singles]
     mats = [materialise(tx0, ops) for tx0, ops in hists]
     hist_lines = [hist_line(tx0, full) for (tx0, _), (full, _) in zip(hists, mats)]
@@ -659,7 +824,7 @@ def run(ctx):
         impl = impl_history(tx0, full)
         m = model.split(" ")[1:]
         want = [next(spec_ans) if s else None for s in specs]
-        case = {"hist": line, "specs": specs}
+        case = {"hist": line, "specs": specs, "tx0": tx0, "ops": [list(o) for o in full]}
         bad = None
         for k, (a, b, w) in enumerate(zip(impl, m, want)):
             if w is not None and a != w:
@@ -671,6 +836,11 @@ def run(ctx):
         nq = len(impl)
         rec.count("history:queries", nq)
         rec.count(f"history:len{len(ops)}")
+        for o in ops:
+            if o[0] == "E":
+                rec.count("history:edit:" + o[1]["op"])
+        rec.count("history:repeated-query", sum(1 for a, b in zip(ops, ops[1:]) if a[0] == "Q" and a == b))
+        rec.count("history:requery-after-edit", sum(1 for a, b in zip(ops, ops[1:]) if a[0] == "E" and b[0] == "Q"))
         if bad is None and len(impl) == len(m):
             rec.ok("history", line[-300:], nontrivial=True)
             rec.sample("history", {"ops": [o[1] if o[0] == "Q" else "edit:" + o[1]["op"] for o in ops], "answers": [a[:24] for a in impl]}, limit=2)
@@ -683,7 +853,8 @@ def run(ctx):
     for fid, tx0, full, specs in fcases:
         impl = impl_history(tx0, full)
         want = [next(spec_ans) for _ in specs]
-        rec.finding(fid, impl != want, {"hist": hist_line(tx0, full), "specs": specs, "impl": impl, "spec": want})
+        rec.finding(fid, impl != want, {"hist": hist_line(tx0, full), "specs": specs, "tx0": tx0, "ops": [list(o) for o in full],
+                                        "impl": impl, "spec": want})
 
 
 def tag(tx, q):
@@ -700,23 +871,22 @@ def replay(ctx, v):
         if case.get("spec") and impl != drv.one(case["spec"]):
             return True
         return impl != drv.one(model_line(case["line"]))
-    # a history: re-run it from its request line
-    t = case["hist"].split(" ")
-    ts = T.Toks(t, 1)
-    obj = T.p_tx(ts)
-    n = int(ts.next())
-    impl = []
-    with contextlib.redirect_stdout(io.StringIO()):
-        for _ in range(n):
-            k = ts.next()
-            if k == "Q":
-                impl.append(_safe_query(obj, ts))
-            else:
-                new = T.p_tx(ts)
-                # an edit is replayed by transplanting the new field state into the SAME object
-                obj.version, obj.locktime, obj.segwit = new.version, new.locktime, new.segwit
-                obj.tx_ins[:] = new.tx_ins
-                obj.tx_outs[:] = new.tx_outs
+    # a history: rebuild the initial object and apply the recorded operations to it IN PLACE, exactly as run() did
+    tx0 = _unjson(case["tx0"])
+    ops = [tuple(o) for o in _unjson(case["ops"])]
+    impl = impl_history(tx0, ops)
     want = [drv.one(s) if s else None for s in case["specs"]]
     model = drv.one(case["hist"]).split(" ")[1:]
     return any((w is not None and a != w) or a != m for a, m, w in zip(impl, model, want))
+
+
+def _unjson(x):
+    """inverse of the recorder's JSON form: "x<hex>" strings are bytes"""
+    import re
+    if isinstance(x, str) and re.fullmatch(r"x([0-9a-f]{2})*", x):
+        return bytes.fromhex(x[1:])
+    if isinstance(x, list):
+        return [_unjson(v) for v in x]
+    if isinstance(x, dict):
+        return {k: _unjson(v) for k, v in x.items()}
+    return x
